@@ -62,6 +62,10 @@ class NameAuthority:
         # because users may want to use them.
         self._value_names.add(value.name)
 
+    def reserve_value_name(self, name: str) -> None:
+        """Record an explicitly given value name so that generated names avoid it."""
+        self._value_names.add(name)
+
     def register_or_name_node(self, node: _core.Node) -> None:
         if node.name is None:
             node.name = self._unique_node_name(node.op_type)
